@@ -268,6 +268,11 @@ def primitives(ctx):
                 p.call('linear_fit.linear_r2', xs, ys, coef, E('metrics.R2.adjusted'))
             c2 = R(p.call('linear_fit.linear_fit', x, y))
             p.call('linear_fit.angle', coef, c2)
+            if rng.random() < 0.5:
+                # lines with "nice" slopes: exact coincidences (parallel, perpendicular, horizontal) do occur
+                nice = [-4.0, -2.0, -1.0, -0.5, -0.25, 0.0, 0.25, 0.5, 1.0, 2.0, 4.0]
+                p.call('linear_fit.angle', {'list': [F(rng.choice([0.0, 1.0, 10.0])), F(rng.choice(nice))]},
+                       {'list': [F(rng.choice([0.0, 3.0])), F(rng.choice(nice))]})
             p.call('rdp.compute_cost_coef', seg, coef, E('metrics.Metrics.' + rng.choice(METRICS)))
         elif g == 'lf_misc':
             for fn in rng.sample(['linear_hv_residuals_points', 'linear_fit_transform_points', 'linear_fit_residuals_points',
@@ -371,6 +376,11 @@ def primitives(ctx):
             p.call('evaluation.compute_global_rmse', pts, red)
             p.call('evaluation.compute_global_cost', pts, red, E('metrics.Metrics.' + rng.choice(METRICS)))
             p.call('evaluation.mip', pts, red)
+            if rng.random() < 0.3 and n <= 64:
+                every = {'concat': [{'list': list(range(n))}]}      # nothing was reduced
+                p.call('evaluation.mip', pts, every)
+                p.call('evaluation.compute_global_cost', pts, every, E('metrics.Metrics.' + rng.choice(METRICS)))
+                p.call('rdp.compute_removed_points', pts, every)
             if rng.random() < 0.4:
                 p.call('rdp.mapping', {'list': [0, 1]}, red, rem, False)
         elif g == 'detect1':
